@@ -512,9 +512,24 @@ func (g *gen) gistInfo() *Node {
 }
 
 func (g *gen) method() *Node {
-	m := Obj().Set("id", Str("did:example:123#"+g.pick("key-1", "key-2", "state"))).
-		Set("type", Str(g.pick("Iden3StateInfo2023", "JsonWebKey2020", "EcdsaSecp256k1RecoveryMethod2020"))).
-		Set("controller", Str("did:example:123"))
+	// every member is optional, independently of the others (an entry without `type`,
+	// without `id` or without `controller` is still an embedded method, not a reference)
+	m := Obj()
+	if g.coin(0.85) {
+		m.Set("id", Str("did:example:123#"+g.pick("key-1", "key-2", "state")))
+	} else {
+		g.mark("method-without-id")
+	}
+	if g.coin(0.8) {
+		m.Set("type", Str(g.pick("Iden3StateInfo2023", "JsonWebKey2020", "EcdsaSecp256k1RecoveryMethod2020")))
+	} else {
+		g.mark("method-without-type")
+	}
+	if g.coin(0.8) {
+		m.Set("controller", Str("did:example:123"))
+	} else {
+		g.mark("method-without-controller")
+	}
 	if g.coin(0.3) {
 		m.Set("publicKeyJwk", Obj().Set("kty", Str("EC")).Set("crv", Str("secp256k1")).Set("x", Str("abc")).Set("n", g.number("dbl")))
 	}
